@@ -197,7 +197,7 @@ func streamOS(cfg *Config, res *Result) error {
 	syscall.Umask(umask)
 	res.Rule = "seeded random (initial tree, operation sequence) cases on a real temp directory through PrefixFS(OSFS) and on the Lean OS model through the PrefixFS model; trees: up to 10 entries, files incl. empty and >64KiB, dirs, absolute/relative/dangling/looping links, all 12 mode bits, foreign owners, old mtimes with ns; 12 operations per case over all FS methods incl. open-flag combinations, unclean spellings; compared after every operation: result, returned data and the whole tree; non-trivial = the operation changed the tree or failed; distinct by (tree, ops)"
 	b := &Batch{}
-	g := &OpGen{Mutating: allMutators, ReadOnly: true, Unclean: true}
+	g := &OpGen{Mutating: allMutators, ReadOnly: true, Unclean: true, ReadBack: true}
 	distinct := map[string]struct{}{}
 	caseByTag := map[string]OSCase{}
 	for _, raw := range corpusCases("oscase") {
